@@ -1,3 +1,74 @@
-import GV.Model.Engine
+/-
+  Props/C04.lean — QoS 1/2 publishes follow the delivery protocol across reconnects and sessions.
+  About Model/Engine.lean: `handle_pubrec`, the packet choice in `service_queue_aux`, the DUP handling in
+  `handle_network_event_connection_closed` and `apply_session_present_to_connection` (protocol.rs).
+-/
+import GV.Proofs.EngineBasics
 namespace GV.Props.C04
+open GV
+
+/-- what `service_queue_aux` puts on the wire for an operation: the PUBREL once there is one, else its packet -/
+def wirePacket (o : Op) : Packet := o.pubrel.getD o.packet
+
+/-- **Once a PUBREC has been received the PUBLISH is never sent again**: from then on the operation's wire
+    packet is a PUBREL with the same packet identifier. -/
+theorem after_pubrec_only_pubrel (e : Engine) (a : Ack) (opId : Nat) (o : Op) (p : Publish)
+    (hs : stateBlocksAcks e.state = false) (hl : e.pendingPub.lookup a.packetId = some opId)
+    (ho : e.op? opId = some o) (hid : o.id = opId) (hp : o.packet = .publish p) (hq : p.qos = 2) (hrc : a.reasonCode < 128) :
+    let e' := (e.handlePubrec a).1
+    (e.handlePubrec a).2 = .ok ∧
+    (e'.op? opId).map wirePacket = some (.pubrel { packetId := a.packetId }) ∧ e'.highQ = e.highQ ++ [opId] := by
+  subst hid
+  have hn : ¬ (a.reasonCode ≥ 128) := by omega
+  unfold Engine.op? at ho
+  simp [Engine.handlePubrec, hs, hl, ho, hp, hq, hn, Engine.setOp, Engine.enqueue, Engine.op?, lookup_mapInsert_self, wirePacket]
+
+/-- a failing PUBREC ends the delivery: the operation completes with it and nothing more is sent for it -/
+theorem failing_pubrec_completes (e : Engine) (a : Ack) (opId : Nat) (o : Op) (p : Publish)
+    (hs : stateBlocksAcks e.state = false) (hl : e.pendingPub.lookup a.packetId = some opId)
+    (ho : e.op? opId = some o) (hp : o.packet = .publish p) (hq : p.qos = 2) (hrc : a.reasonCode ≥ 128) :
+    e.handlePubrec a = e.completeSuccess opId (some (.pubrec a.packetId a.reasonCode)) := by
+  simp [Engine.handlePubrec, hs, hl, ho, hp, hq, hrc]
+
+/-- **The first transmission has DUP = 0 and a retransmission DUP = 1 with everything else unchanged**: setting
+    the flag changes only the flag. -/
+theorem dup_changes_only_the_flag (p : Publish) (v : Bool) :
+    setDup (.publish p) v = .publish { p with dup := v } := rfl
+
+theorem dup_leaves_other_packets (p : Packet) (v : Bool) (h : ∀ pb, p ≠ .publish pb) : setDup p v = p := by
+  cases p <;> simp [setDup] <;> exact absurd rfl (h _)
+
+/-- marking an operation as a duplicate keeps its packet id, its PUBREL state and its content -/
+theorem setDupFlag_keeps_identity (e : Engine) (id : Nat) (o : Op) (v : Bool) (ho : e.op? id = some o) (hid : o.id = id) :
+    (e.setDupFlag id v).op? id = some { o with packet := setDup o.packet v } := by
+  subst hid
+  unfold Engine.op? at ho
+  simp [Engine.setDupFlag, ho, Engine.setOp, Engine.op?, lookup_mapInsert_self]
+
+/-- **Session lost: a retained publish restarts as a fresh message** — DUP cleared, packet id and PUBREL state
+    dropped (the operation then gets a new id when it is sent). -/
+theorem restart_clears_qos2_state (e : Engine) (id : Nat) (o : Op) (ho : e.op? id = some o) (hid : o.id = id) :
+    ((e.clearQos2 id).op? id).bind (·.pubrel) = none := by
+  subst hid
+  unfold Engine.op? at ho
+  simp [Engine.clearQos2, ho, Engine.setOp, Engine.op?, lookup_mapInsert_self]
+
+/-- **A message reported complete is never transmitted again**: completion stops tracking the operation, and the
+    service loop skips queue entries without an operation. -/
+theorem completed_is_skipped (e : Engine) (all : Bool) (e1 : Engine) (id : Nat) (hc : e.current = none)
+    (hd : e.dequeue all = (e1, some id)) (hgone : e1.op? id = none) :
+    ∃ e', e.seatCurrent all = .cont e' ∧ e'.current = none := by
+  have : ({ e1 with current := some id } : Engine).op? id = none := hgone
+  simp [Engine.seatCurrent, hc, hd, this]
+
+/-- within one connection a fully written publish waits in the pending table, it is not queued again -/
+theorem written_publish_waits_for_ack (e : Engine) (id : Nat) (o : Op) (p : Publish)
+    (hc : e.current = some id) (ho : e.op? id = some o) (hp : o.packet = .publish p) (hq : p.qos ≠ 0) :
+    ∃ e', e.onFullyWritten = some e' ∧ e'.pendingPub.lookup p.packetId = some id ∧ e'.current = none ∧
+      e'.userQ = e.userQ ∧ e'.resubQ = e.resubQ ∧ e'.highQ = e.highQ := by
+  simp only [Engine.onFullyWritten, hc, ho, hp, hq, ↓reduceIte]
+  refine ⟨_, rfl, ?_⟩
+  simp only [Engine.startAckTimeout]
+  split <;> simp [Engine.setOp, lookup_mapInsert_self]
+
 end GV.Props.C04
